@@ -58,7 +58,7 @@ PROP = {
           "taken samples never come back", "4 arrivals, 2 accesses; " + _SYM),
         H("c08_plan_read_arr_read", _p,
           "(a)/(e) KeepAll: A A, read, A A, read(not_read) returns exactly the two new ones (newest NEW iff reborn since the read), "
-          "read(any) returns all four Read/NotNew; witness: two rebirths", "4 arrivals, 3 accesses; " + _SYM),
+          "read(any) returns all four Read/NotNew; witness: two rebirths", "4 arrivals, 3 accesses; " + _SYM, tier="thorough", timeout=2400),
         H("c08_plan_two_writers_crossed", _p,
           "(b) KeepAll, two writers on one instance, arrival order W1:sn5 W2:sn1 W1:sn6 W2:sn2 (result order differs from arrival "
           "order): read all, take all; per-writer SN order, generation counts by ARRIVAL order, most recent = last received",
@@ -71,7 +71,7 @@ PROP = {
           "5 arrivals, 3 accesses; " + _SYM),
         H("c08_plan_kl1_partial", _p, "(c) KeepLast(1): A A, take(max_samples=1), A A, read, take", "4 arrivals, 3 accesses; " + _SYM),
         H("c08_plan_unset_refill", _p, "(c) no History in the QoS (= KeepLast(1)): A, take, A A, read [the newest], take",
-          "3 arrivals, 3 accesses; " + _SYM),
+          "3 arrivals, 3 accesses; " + _SYM, tier="thorough", timeout=2400),
         H("c08_plan_kl2_two_instances", _p,
           "(d) KeepLast(2), keys 0 and 1: k0 k1 k0, take_instance(This 0), k0 k0 k0, read over both instances, "
           "take_instance(Next 0) = key 1 [NotNew: viewed by the read], read_instance(This 0) [skips the stale index entries], "
@@ -119,11 +119,6 @@ PROP = {
           "FINDING (same defect, the documented `while let Some(s) = read_next_sample()` loop, two writers): W1:V(sn5) W2:D(sn1) W2:V(sn2); "
           "three read(max 1, not_read); read(any): most recent sample NEW again", "3 arrivals, 4 accesses, concrete kinds",
           tier="thorough", timeout=2400, expect="fail"),
-        H("c08_finding_view_state_backwards_symsn", _d,
-          "FINDING (same defect, straight-line harness): as above with writer 1's sequence number symbolic in 1..20 (fails for > 2)",
-          "3 arrivals, 4 reads", tier="thorough", timeout=2400, expect="fail"),
-        H("c08_single_sample_life_symkey", _d, "c08_single_sample_life with a symbolic key in {0,1}",
-          "1 arrival", tier="thorough", timeout=2400),
         H("c08_not_read_after_read", _d,
           "read, second arrival, not_read selects exactly the unread sample; New iff reborn; read(any) returns both Read",
           "2 arrivals, key 0", tier="thorough", timeout=2400),
@@ -134,11 +129,13 @@ PROP = {
     "bounds": {"CAP": "4 live entries per map/set (samples in the cache, index entries of an instance incl. stale ones, instances)",
                "unwind": "6-8 (= arrival slots + 1)", "instances": "1 (key 0), 2 in the *_two_instances plans",
                "writers": "1, 2 in the *_two_writers plans",
-               "operations": "19 concrete plans of 3-7 arrivals and 1-5 accesses (read/take/read_instance/take_instance This|Next, "
+               "operations": "21 concrete plans (8 quick, 13 thorough) + 3 finding plans of 3-7 arrivals and 1-5 accesses (read/take/read_instance/take_instance This|Next, "
                              "condition any|not_read, max_samples 1|2|all); per plan symbolic: Value/Dispose of every arrival, payload bytes"},
     "outside": [
         "symbolic operation KINDS / orders / keys / writers / sequence numbers and symbolic read conditions: one symbolic condition on a "
         "3-sample cache exceeds 6 GB (the selection gets a symbolic length); symbolic max_samples only in the two *_symmax plans (thorough)",
+        "symbolic keys over a whole life cycle and symbolic sequence numbers across two writers (c08_single_sample_life_symkey, "
+        "c08_finding_view_state_backwards_symsn in harness/dscache.rs: > 7 GB, not listed)",
         "histories longer than 7 arrivals or with more than 4 live samples; more than 2 instances / 2 writers; KeepLast(depth > 3)",
         "iterators (read_bare_by_keys / take_bare_by_keys), view/instance-state masks of a ReadCondition (only any / not_read are used)",
         "sample_rank / generation_rank / absolute_generation_rank (not named in the property text; by reading, RustDDS computes "
